@@ -126,6 +126,7 @@ fn twin_world<T: Sc>(sc: &Scenario, a: &World<T>) -> (World<T>, Option<usize>) {
                 parallel: a.parallel,
                 opt: a.opt.clone(),
                 row_scale: None,
+                builder_order: a.builder_order,
             },
             None,
         ),
@@ -146,6 +147,7 @@ fn twin_world<T: Sc>(sc: &Scenario, a: &World<T>) -> (World<T>, Option<usize>) {
                     parallel: a.parallel,
                     opt: a.opt.clone(),
                     row_scale: None,
+                    builder_order: a.builder_order,
                 },
                 Some(i),
             )
@@ -164,6 +166,7 @@ fn twin_world<T: Sc>(sc: &Scenario, a: &World<T>) -> (World<T>, Option<usize>) {
                     parallel: a.parallel,
                     opt: a.opt.clone(),
                     row_scale: Some(Arc::new(w.iter().copied().collect())),
+                    builder_order: a.builder_order,
                 },
                 None,
             )
@@ -437,7 +440,8 @@ fn cmp_state<T: Sc>(
                 for k in 0..n {
                     let v = ra_t[col * n + k];
                     if k == i {
-                        if v.f() != 0.0 {
+                        // (with non-finite coefficients 0*inf = NaN is legitimate)
+                        if v.f() != 0.0 && ra_t.iter().all(|x| x.f().is_finite()) {
                             rep.violate(sc, "ZERO_WEIGHT_INFLUENCE", &format!("{site}/resid"), format!("the residual of the zero-weight sample is {:e}, not 0", v.f()));
                         }
                     } else {
